@@ -1,8 +1,10 @@
 #!/bin/sh
-# Builds the framework from files on disk only (offline). Warms the Go build cache.
+# Builds the framework from files on disk only (offline). Warms the Go build cache for all three binaries.
 export GOFLAGS=-mod=mod GOPROXY=off GOSUMDB=off GOTOOLCHAIN=local
 cd /verif/harness || exit 2
 mkdir -p /verif/bin /verif/.work /verif/evidence /verif/replays
 cp /repo/go.sum go.sum
 go build -o /verif/bin/vcheck ./cmd/vcheck || exit 2
+/verif/tools/build_vsched.sh || exit 2
+/verif/tools/build_vcheck_i.sh || exit 2
 echo "setup ok"
